@@ -81,12 +81,13 @@ LOGIC_META = {L: (L in MODAL, L not in ('CPL', 'P3')) for L in ALL_LOGICS}
 OPTS4 = [(1, 1), (1, 0), (0, 1), (0, 0)]
 
 
-def corpus_jobs(seed, per_logic, tag, level, *, orders=2, models=0, max_steps=150, mode=None, logics=None, timeout_s=20):
+def corpus_jobs(seed, per_logic, tag, level, *, orders=2, models=0, max_steps=150, mode=None, logics=None, timeout_s=20,
+                systematic=False):
     """The shared random+schema corpus as proof jobs; options, driver mode and order seed rotate."""
     import corpus
     jobs = []
     meta = {L: m for L, m in LOGIC_META.items() if logics is None or L in logics}
-    for n, (L, label, arg) in enumerate(corpus.corpus(seed, per_logic, meta, tag)):
+    for n, (L, label, arg) in enumerate(corpus.corpus(seed, per_logic, meta, tag, systematic)):
         g, r = OPTS4[n % 4]
         jobs.append({'id': f'{L}/{label}/g{g}r{r}', 'logic': L, 'label': label, 'arg': arg, 'g': g, 'r': r,
                      'mode': mode or ('step' if n % 2 else 'build'), 'level': level, 'models': models,
